@@ -42,6 +42,13 @@ func genProgram(g *tape.Stream, p *Profile, isFinal bool) []Act {
 	return prog
 }
 
+func ms0(m []string) string {
+	if len(m) == 0 {
+		return "GET"
+	}
+	return m[0]
+}
+
 // GenRequests draws the workload: tasks × requests, each with its programs and
 // its fault plan. All faults are decided here, in request-local coordinates.
 func GenRequests(g *tape.Stream, fg *tape.Stream, s *Setup, p *Profile) [][]*Req {
@@ -50,9 +57,13 @@ func GenRequests(g *tape.Stream, fg *tape.Stream, s *Setup, p *Profile) [][]*Req
 	faultFree := fg.Chance(p.FaultFree)
 	id := 0
 	var hot string
+	hotChain := -99
+	var hotMethods []string
 	if len(s.Routes) > 0 {
 		r := s.Routes[g.Intn(len(s.Routes))]
 		hot = r.Inst[g.Intn(len(r.Inst))]
+		hotChain = r.Index
+		hotMethods = MethodsOf(r, s.AutoHead)
 	}
 	maxChain := len(s.Mw) + 8
 	if maxChain > ActionPos {
@@ -67,15 +78,15 @@ func GenRequests(g *tape.Stream, fg *tape.Stream, s *Setup, p *Profile) [][]*Req
 			q.Method = p.Methods[g.Weighted(p.MethodW...)]
 			switch {
 			case hot != "" && g.Chance(p.HotPm):
-				q.Path, q.Tag = hot, "hot"
+				q.Path, q.Tag, q.Chain = hot, "hot", hotChain
 			case g.Chance(p.HostilePm) || len(s.Routes) == 0:
-				q.Path, q.Tag = Hostile[g.Intn(len(Hostile))], "hostile"
+				q.Path, q.Tag, q.Chain = Hostile[g.Intn(len(Hostile))], "hostile", -1
 			default:
 				r := s.Routes[g.Intn(len(s.Routes))]
 				if len(r.Near) > 0 && g.Chance(p.NearPm) {
-					q.Path, q.Tag = r.Near[g.Intn(len(r.Near))], "near"
+					q.Path, q.Tag, q.Chain = r.Near[g.Intn(len(r.Near))], "near", -99
 				} else {
-					q.Path, q.Tag = r.Inst[g.Intn(len(r.Inst))], "inst"
+					q.Path, q.Tag, q.Chain = r.Inst[g.Intn(len(r.Inst))], "inst", r.Index
 				}
 				if q.Method == "GET" || q.Method == "POST" {
 					// keep most requests on a method the route has
@@ -86,10 +97,15 @@ func GenRequests(g *tape.Stream, fg *tape.Stream, s *Setup, p *Profile) [][]*Req
 							ok = true
 						}
 					}
-					if !ok && g.Intn(4) != 3 {
+					if !ok && (p.KnownChain || g.Intn(4) != 3) {
 						q.Method = ms[0]
 					}
+				} else if p.KnownChain {
+					q.Method = ms0(MethodsOf(r, s.AutoHead))
 				}
+			}
+			if q.Tag == "hot" && p.KnownChain {
+				q.Method = ms0(hotMethods)
 			}
 			q.Query = "q=" + q.Name
 			if g.Chance(p.ExtraPm) {
@@ -173,7 +189,7 @@ func CloneForTwin(in [][]*Req) [][]*Req {
 	out := make([][]*Req, len(in))
 	for i := range in {
 		for _, r := range in[i] {
-			c := &Req{ID: r.ID, Name: r.Name, Method: r.Method, Path: r.Path, Query: r.Query, Hdr: r.Hdr, Progs: r.Progs, Rets: r.Rets,
+			c := &Req{ID: r.ID, Name: r.Name, Chain: r.Chain, Method: r.Method, Path: r.Path, Query: r.Query, Hdr: r.Hdr, Progs: r.Progs, Rets: r.Rets,
 				WPlan: r.WPlan, Flusher: r.Flusher, Tag: r.Tag}
 			c.PlannedCancel = r.PlannedCancel
 			if r.AsyncCancelAt >= 0 {
